@@ -1026,14 +1026,63 @@ impl Runner<'_> {
                         return "bad".into();
                     }
                 }
-                let is = i.to_string();
-                for _ in 0..k {
-                    self.op(&["write", &is, "1"]);
-                    self.op(&["read", &is, "1"]);
-                    let r = self.op(&["await", &is]);
-                    if let Some(rest) = r.strip_prefix("ready some ") {
-                        let id = rest.split(':').next().unwrap_or("").to_string();
-                        self.op(&["drop", &id]);
+                // fast path: same four steps (write 1 byte, read_managed(1), await, drop) without the
+                // full snapshot after each of them; stops at the first read that yields no buffer
+                let mut done = 0usize;
+                let mut stop: Option<String> = None;
+                while done < k && stop.is_none() {
+                    let sys = self.sys.as_mut().unwrap();
+                    let s = sys.srcs[i].as_mut().unwrap();
+                    let byte = pattern(i, s.seq);
+                    s.seq += 1;
+                    s.sent.push(byte);
+                    if let Tx::Pipe(f) = &mut s.tx
+                        && let Err(e) = f.write_all(&[byte])
+                    {
+                        stop = Some(format!("write failed: {e}"));
+                        break;
+                    }
+                    let mut fut = start_read(s, 1, 0);
+                    let rt = sys.rt.as_ref().unwrap();
+                    let mut res = None;
+                    for _ in 0..1000 {
+                        let mut cx = noop_cx();
+                        if let Poll::Ready(r) = rt.enter(|| fut.as_mut().poll(&mut cx)) {
+                            res = Some(r);
+                            break;
+                        }
+                        rt.poll_with(Some(Duration::ZERO));
+                    }
+                    rt.enter(|| drop(fut));
+                    match res {
+                        Some(Ok(Some(b))) => {
+                            let s = sys.srcs[i].as_mut().unwrap();
+                            if b.len() != 1 || b[0] != byte {
+                                stop = Some("spin: wrong content".into());
+                                fail(self.ex, &self.tainted, "C07:content", "spin: a 1-byte read did not return the byte written");
+                            }
+                            s.rpos = s.sent.len();
+                            if let Some(id) = buf_id(&b)
+                                && sys.held.contains_key(&id)
+                            {
+                                fail(self.ex, &self.tainted, "C07:alias", format!("spin: buffer {id} handed out while a handle holds it"));
+                            }
+                            drop(b);
+                            done += 1;
+                        }
+                        Some(Ok(None)) => stop = Some("none".into()),
+                        Some(Err(e)) => {
+                            s_lossy(sys, i);
+                            stop = Some(err_name(&e));
+                        }
+                        None => {
+                            fail(self.ex, &self.tainted, "C07:hang", "spin: a read on a pipe with data did not complete within 1000 polls");
+                            stop = Some("hang".into());
+                        }
+                    }
+                    if done % 8192 == 0 {
+                        let snap = self.sys.as_ref().unwrap().settle();
+                        self.monitors(&snap);
                     }
                 }
                 self.ex.tag("spin");
@@ -1088,9 +1137,18 @@ fn fail(ex: &mut Exec, tainted: &Option<String>, sig: &str, detail: impl Into<St
     let detail = detail.into();
     match tainted {
         Some(t) if sig != "C07:harness" => {
+            if ex.failures.len() >= 4 {
+                return;
+            }
             ex.fail("C07a:raw-take-of-pool-owned-id", format!("{t}; consequence: [{sig}] {detail}"))
         }
         _ => ex.fail(sig, detail),
+    }
+}
+
+fn s_lossy(sys: &mut Sys, i: usize) {
+    if let Some(Some(s)) = sys.srcs.get_mut(i) {
+        s.lossy = true;
     }
 }
 
@@ -1520,7 +1578,7 @@ fn gen_raw(rng: &mut Rng, kind: &str, n: u64, len: u64) -> Vec<String> {
 fn generate(tier: &str, rng: &mut Rng) -> Vec<Case> {
     let thorough = tier == "thorough";
     let mut cases = vec![];
-    let n_random = if thorough { 40000 } else { 2500 };
+    let n_random = if thorough { 30000 } else { 2000 };
     let lens = [8u64, 16, 32, 64, 1, 3, 24];
     for c in 0..n_random {
         let kind = if c % 2 == 0 { "ring" } else { "fb" };
